@@ -218,13 +218,17 @@ def build_world(case, scratch):
 
 def run_rebuild(case, world, captured):
     rebuild = drive.mod("rebuild")
-    orig_index = rebuild._index_contents
+    orig_index = getattr(rebuild, "_index_contents", None)     # observation only: absent after a refactoring -> no spy
 
     def spy(contents, filenames):
         m = orig_index(contents, filenames)
-        captured["filemap"] = {k: list(v) for k, v in m.items()}
+        try:
+            captured["filemap"] = {k: list(v) for k, v in m.items()}
+        except Exception:
+            pass
         return m
-    rebuild._index_contents = spy
+    if orig_index is not None:
+        rebuild._index_contents = spy
     metas = [m["path"] for m in world["metas"]]
     if case.get("meta_as_dir"):
         metas = [os.path.dirname(metas[0])]
@@ -241,7 +245,8 @@ def run_rebuild(case, world, captured):
                 import traceback
                 oc = drive.Outcome(exc=exc, tb=traceback.format_exc())
     finally:
-        rebuild._index_contents = orig_index
+        if orig_index is not None:
+            rebuild._index_contents = orig_index
     return oc
 
 
@@ -270,11 +275,11 @@ def listed_files(meta):
 def _reach():
     rebuild, utils = drive.mod("rebuild"), drive.mod("utils")
     r = env.Reach()
-    r.start({"Metadata.extract": rebuild.Metadata.extract, "Metadata._map_pieces": rebuild.Metadata._map_pieces,
-             "Metadata._parse_tree": rebuild.Metadata._parse_tree, "Metadata._match_v1": rebuild.Metadata._match_v1,
-             "Metadata._match_v2": rebuild.Metadata._match_v2, "PieceNode._find_matches": rebuild.PieceNode._find_matches,
-             "PathNode.get_part": rebuild.PathNode.get_part, "rebuild._index_content": rebuild._index_content,
-             "utils.copypath": utils.copypath})
+    r.start({"Metadata.extract": env.Tolerant(rebuild).Metadata.extract, "Metadata._map_pieces": env.Tolerant(rebuild).Metadata._map_pieces,
+             "Metadata._parse_tree": env.Tolerant(rebuild).Metadata._parse_tree, "Metadata._match_v1": env.Tolerant(rebuild).Metadata._match_v1,
+             "Metadata._match_v2": env.Tolerant(rebuild).Metadata._match_v2, "PieceNode._find_matches": env.Tolerant(rebuild).PieceNode._find_matches,
+             "PathNode.get_part": env.Tolerant(rebuild).PathNode.get_part, "rebuild._index_content": env.Tolerant(rebuild)._index_content,
+             "utils.copypath": env.Tolerant(utils).copypath})
     return r
 
 
@@ -628,7 +633,7 @@ class C19:
         before = {k: v for k, v in before.items() if not (k + "/").startswith("lvl1/lvl2/dest/") and k != "lvl1/lvl2/dest"}
         rebuild = drive.mod("rebuild")
         captured = {"matched": 0}
-        orig_copy = drive.mod("utils").copypath
+        orig_copy = getattr(rebuild, "copypath", None) or getattr(drive.mod("utils"), "copypath", None)
 
         def veto(ev, paths):
             targets = paths[-1:] if ev in ("shutil.copyfile", "shutil.copymode", "shutil.copystat") else paths
@@ -643,7 +648,8 @@ class C19:
         def spy_copy(source, target):
             captured["matched"] += 1
             return orig_copy(source, target)
-        rebuild.copypath = spy_copy
+        if orig_copy is not None:
+            rebuild.copypath = spy_copy
         env.AUDIT.start(veto=veto)
         try:
             if case["via"] == "cli":
@@ -656,7 +662,8 @@ class C19:
         finally:
             events = env.AUDIT.stop()
             vetoed = list(env.AUDIT.vetoed)
-            rebuild.copypath = orig_copy
+            if orig_copy is not None:
+                rebuild.copypath = orig_copy
         after = env.snapshot(sandbox)
         after = {k: v for k, v in after.items() if not (k + "/").startswith("lvl1/lvl2/dest/") and k != "lvl1/lvl2/dest"}
         counters, viol = {"rebuild_calls": 1}, []
@@ -674,7 +681,7 @@ class C19:
             counters["escaping_cases"] = 1
             if case.get("meta_as_dir"):
                 counters["escaping_cases_metafile_directory"] = 1
-        if captured["matched"]:
+        if captured["matched"] or any(e == "shutil.copyfile" for e, _ in events):
             counters["candidate_matched"] = 1
         if not escapes and any(e == "shutil.copyfile" for e, _ in events):
             counters["benign_copy_events"] = 1
